@@ -42,3 +42,6 @@ Definition from_jde_in_time_scale (days : f64) (t : timescale) : epoch :=
 Definition from_unix_duration (d : duration) : option epoch := omap (fun r => mkE (dur_add r d) UTC) unix_ref_utc.
 Definition from_unix_seconds (s : f64) : option epoch := omap (fun r => mkE (dur_add r (unit_mul_f64 Second s)) UTC) unix_ref_utc.
 Definition from_unix_milliseconds (s : f64) : option epoch := omap (fun r => mkE (dur_add r (unit_mul_f64 Millisecond s)) UTC) unix_ref_utc.
+
+(* impl Add<f64> for Epoch (ops.rs): seconds * Unit::Second added in the epoch's own scale *)
+Definition epoch_add_f64 (e : epoch) (x : f64) : epoch := mkE (dur_add (dur e) (unit_mul_f64 Second x)) (scale e).
